@@ -962,3 +962,181 @@ Proof.
   - intros d HI. destruct (i_ta _ _ _ _ I' _ _ HI) as (o3 & G3 & _). rewrite hget_hdel_same in G3. discriminate.
   - apply hget_hdel_same.
 Qed.
+
+(* ------------------------------------------------------------------ dead sequence numbers stay dead *)
+Definition norun (s : Z) (ev : list event) : Prop := forall dl now t, ~ In (ERun s dl now t) ev.
+Lemma norun_app : forall s a b, norun s a -> norun s b -> norun s (a ++ b).
+Proof. intros s a b A B dl now t HI. apply in_app_iff in HI as [HI|HI]; [eapply A|eapply B]; eauto. Qed.
+Lemma norun_nil : forall s, norun s []. Proof. intros s dl now t []. Qed.
+
+Lemma settime_hn : forall st r, heap (settime st r) = heap st /\ next_seq (settime st r) = next_seq st.
+Proof. intros st r. unfold settime. destruct (r =? 0); [|destruct (r <? 0)]; cbn; auto. Qed.
+
+Lemma insert_hn : forall st a st' e, insert st a = Ok (st', e) -> heap st' = heap st /\ next_seq st' = next_seq st.
+Proof.
+  intros st a st' e H. unfold insert in H. destruct (assert (sizes_agree st)); cbn [bind] in H; try discriminate.
+  destruct (deref st a) as [o| |]; cbn [bind] in H; try discriminate.
+  destruct (kinsert _ (timers st)); try discriminate. destruct (kinsert _ (active st)); try discriminate.
+  inversion H; subst. cbn. auto.
+Qed.
+
+Lemma add_in_loop_gone : forall st a st' ev s, add_in_loop st a = Ok (st', ev) -> gone st s -> gone st' s /\ norun s ev.
+Proof.
+  intros st a st' ev s H G. unfold add_in_loop in H.
+  destruct (insert st a) as [[st1 e]| |] eqn:EI; cbn [bind] in H; try discriminate.
+  destruct (insert_hn _ _ _ _ EI) as [Eh En]. destruct e.
+  - destruct (deref st1 a); cbn [bind] in H; try discriminate. unfold reset_timerfd in H. inversion H; subst.
+    destruct (settime_hn st1 (how_much st1 (o_exp a0))) as [Eh2 En2]. split.
+    + unfold gone in *. rewrite Eh2, En2, Eh, En. auto.
+    + intros dl now t [HI|[]]. discriminate.
+  - inversion H; subst. split; [unfold gone in *; rewrite Eh, En; auto | apply norun_nil].
+Qed.
+
+Lemma cancel_gone : forall st a s0 st' s, cancel_in_loop st a s0 = Ok st' -> gone st s -> gone st' s.
+Proof.
+  intros st a s0 st' s H G. unfold cancel_in_loop in H.
+  destruct (assert (sizes_agree st)); cbn [bind] in H; try discriminate.
+  destruct (kmem (a, s0) (active st)).
+  - destruct (deref st a) as [o| |]; cbn [bind] in H; try discriminate.
+    destruct (kerase _ (timers st)); try discriminate. destruct (kerase _ (active st)); try discriminate.
+    inversion H; subst. unfold gone. cbn. apply gonec_hdel. exact G.
+  - destruct (calling st); inversion H; subst; exact G.
+Qed.
+
+Lemma alloc_gone : forall st w iv a st' s1 s, alloc st w iv a = Ok (st', s1) -> gone st s -> gone st' s.
+Proof.
+  intros st w iv a st' s1 s H [L G]. unfold alloc in H. destruct (_ && _); try discriminate. inversion H; subst.
+  unfold gone, gonec. cbn [heap next_seq set_seq set_heap]. split; [lia|]. intros b o Gb.
+  destruct (Z.eq_dec a b) as [->|N].
+  - rewrite hget_cons_same in Gb. inversion Gb; subst. cbn. lia.
+  - rewrite hget_cons_other in Gb by auto. eauto.
+Qed.
+
+Lemma cb_step_gone : forall st c st' ev s, cb_step st c = Ok (st', ev) -> gone st s -> gone st' s /\ norun s ev.
+Proof.
+  intros st c st' ev s H G. destruct c as [d|w iv a|a s0|w iv a|a s0]; cbn [cb_step] in H.
+  - destruct (d <? 0); inversion H; subst. split; [exact G | apply norun_nil].
+  - destruct (alloc st w iv a) as [[st1 s1]| |] eqn:EA; cbn [bind] in H; try discriminate.
+    destruct (add_in_loop st1 a) as [[st2 e]| |] eqn:EL; cbn [bind] in H; try discriminate.
+    inversion H; subst. destruct (add_in_loop_gone _ _ _ _ s EL (alloc_gone _ _ _ _ _ _ _ EA G)) as [G2 N2].
+    split; auto. apply norun_app; auto. intros dl now t [HI|[]]. discriminate.
+  - destruct (cancel_in_loop st a s0) as [st1| |] eqn:EC; cbn [bind] in H; try discriminate.
+    inversion H; subst. split; [eapply cancel_gone; eauto | apply norun_nil].
+  - destruct (alloc st w iv a) as [[st1 s1]| |] eqn:EA; cbn [bind] in H; try discriminate.
+    inversion H; subst. split; [exact (alloc_gone _ _ _ _ _ _ _ EA G)|]. intros dl now t [HI|[]]. discriminate.
+  - inversion H; subst. split; [exact G | apply norun_nil].
+Qed.
+
+Lemma cb_run_gone : forall cs st st' ev s, cb_run st cs = Ok (st', ev) -> gone st s -> gone st' s /\ norun s ev.
+Proof.
+  induction cs as [|c r IH]; intros st st' ev s H G; cbn [cb_run] in H.
+  - inversion H; subst. split; [exact G | apply norun_nil].
+  - destruct (cb_step st c) as [[st1 e1]| |] eqn:E1; try discriminate.
+    + destruct (cb_run st1 r) as [[st2 e2]| |] eqn:E2; cbn [bind] in H; try discriminate.
+      inversion H; subst. destruct (cb_step_gone _ _ _ _ s E1 G) as [G1 N1].
+      destruct (IH _ _ _ s E2 G1) as [G2 N2]. split; auto. apply norun_app; auto.
+    + destruct (cb_run st r) as [[st2 e2]| |] eqn:E2; cbn [bind] in H; try discriminate.
+      inversion H; subst. destruct (IH _ _ _ s E2 G) as [G2 N2]. split; auto.
+      intros dl now t [HI|HI]; [discriminate | eapply N2; eauto].
+Qed.
+
+Lemma run_cbs_gone : forall ex st script now st' ev s, run_cbs st ex script now = Ok (st', ev) -> gone st s ->
+  gone st' s /\ norun s ev.
+Proof.
+  induction ex as [|[d a] ex IH]; intros st script now st' ev s H G; cbn [run_cbs] in H.
+  - inversion H; subst. split; [exact G | apply norun_nil].
+  - unfold deref in H. destruct (hget a (heap st)) as [o|] eqn:Go; cbn [bind] in H; try discriminate.
+    destruct (cb_run st (hd [] script)) as [[st1 e1]| |] eqn:E1; cbn [bind] in H; try discriminate.
+    destruct (run_cbs st1 ex (tl script) now) as [[st2 e2]| |] eqn:E2; cbn [bind] in H; try discriminate.
+    inversion H; subst. destruct (cb_run_gone _ _ _ _ s E1 G) as [G1 N1]. destruct (IH _ _ _ _ _ s E2 G1) as [G2 N2].
+    split; auto. intros dl now' t [HI|HI].
+    + inversion HI; subst. destruct G as [_ G]. eapply G; eauto.
+    + revert HI. apply norun_app; auto.
+Qed.
+
+Lemma reset_loop_gone : forall ex st now st' s, reset_loop st ex now = Ok st' -> gone st s -> gone st' s.
+Proof.
+  induction ex as [|[d a] ex IH]; intros st now st' s H G; cbn [reset_loop] in H.
+  - inversion H; subst; auto.
+  - unfold deref in H. destruct (hget a (heap st)) as [o|] eqn:Go; cbn [bind] in H; try discriminate.
+    destruct (o_repeat o && negb (kmem (a, o_seq o) (canceling st))).
+    + destruct (insert _ a) as [[st2 e]| |] eqn:EI; cbn [bind] in H; try discriminate.
+      destruct (insert_hn _ _ _ _ EI) as [Eh En]. eapply IH; [exact H|].
+      unfold gone. rewrite Eh, En. cbn [heap next_seq set_heap]. destruct G as [L G]. split; auto.
+      intros b p Gb. destruct (Z.eq_dec a b) as [->|N].
+      * rewrite hget_hput_same in Gb. inversion Gb; subst. cbn. eauto.
+      * rewrite hget_hput_other in Gb by auto. eauto.
+    + eapply IH; [exact H|]. unfold gone. cbn. apply gonec_hdel. exact G.
+Qed.
+
+Lemma consume_hn : forall st, heap (consume st) = heap st /\ next_seq (consume st) = next_seq st.
+Proof. intros st. destruct (consume_same st) as (A & _ & _ & B & _). auto. Qed.
+
+Lemma fire_gone : forall st script st' ev s, fire st script = Ok (st', ev) -> gone st s -> gone st' s /\ norun s ev.
+Proof.
+  intros st script st' ev s H G. unfold fire in H.
+  destruct (assert (sizes_agree (consume st))); cbn [bind] in H; try discriminate.
+  destruct (ksplit (clk st, PTR_MAX) (timers (consume st))) as [ex rest] eqn:KS.
+  destruct (assert _); cbn [bind] in H; try discriminate.
+  destruct (unactivate (consume st) ex (active (consume st))) as [act| |]; cbn [bind] in H; try discriminate.
+  destruct (assert _); cbn [bind] in H; try discriminate.
+  destruct (run_cbs _ ex script (clk st)) as [[st4 evs]| |] eqn:ER; cbn [bind] in H; try discriminate.
+  destruct (consume_hn st) as [Eh En].
+  assert (G3 : gone (set_canceling (set_calling (set_sets (consume st) rest act) true) []) s)
+    by (unfold gone in *; cbn; rewrite Eh, En; exact G).
+  destruct (run_cbs_gone _ _ _ _ _ _ s ER G3) as [G4 N4].
+  destruct (reset_loop _ ex (clk st)) as [st6| |] eqn:EL; cbn [bind] in H; try discriminate.
+  assert (G6 : gone st6 s) by (eapply reset_loop_gone; [exact EL|]; exact G4).
+  destruct (timers st6) as [|[dq aq] r]; [inversion H; subst; auto|].
+  destruct (deref st6 aq) as [o| |]; cbn [bind] in H; try discriminate.
+  destruct (0 <? o_exp o); [|inversion H; subst; auto].
+  unfold reset_timerfd in H. inversion H; subst.
+  destruct (settime_hn st6 (how_much st6 (o_exp o))) as [Eh2 En2]. split.
+  - unfold gone in *. rewrite Eh2, En2. exact G6.
+  - apply norun_app; auto. intros dl now t [HI|[]]. discriminate.
+Qed.
+
+Lemma run_functors_gone : forall fs st st' ev s, run_functors st fs = Ok (st', ev) -> gone st s -> gone st' s /\ norun s ev.
+Proof.
+  induction fs as [|[a|a s0] r IH]; intros st st' ev s H G; cbn [run_functors] in H.
+  - inversion H; subst. split; [exact G | apply norun_nil].
+  - destruct (add_in_loop st a) as [[st1 e1]| |] eqn:E1; cbn [bind] in H; try discriminate.
+    destruct (run_functors st1 r) as [[st2 e2]| |] eqn:E2; cbn [bind] in H; try discriminate.
+    inversion H; subst. destruct (add_in_loop_gone _ _ _ _ s E1 G) as [G1 N1]. destruct (IH _ _ _ s E2 G1) as [G2 N2].
+    split; auto. apply norun_app; auto.
+  - destruct (cancel_in_loop st a s0) as [st1| |] eqn:E1; cbn [bind] in H; try discriminate.
+    eapply IH; [exact H|]. eapply cancel_gone; eauto.
+Qed.
+
+Lemma run_gone : forall ops st st' ev s, run st ops = Ok (st', ev) -> gone st s -> gone st' s /\ norun s ev.
+Proof.
+  induction ops as [|o r IH]; intros st st' ev s H G; cbn [run] in H.
+  - inversion H; subst. split; [exact G | apply norun_nil].
+  - destruct (step st o) as [[st1 e1]| |] eqn:E1; cbn [bind] in H; try discriminate.
+    destruct (run st1 r) as [[st2 e2]| |] eqn:E2; cbn [bind] in H; try discriminate.
+    inversion H; subst.
+    assert (S1 : gone st1 s /\ norun s e1).
+    { destruct o as [c|script|]; cbn [step] in E1.
+      - eapply cb_step_gone; eauto.
+      - eapply fire_gone; eauto.
+      - eapply run_functors_gone; [exact E1|]. exact G. }
+    destruct S1 as [G1 N1]. destruct (IH _ _ _ s E2 G1) as [G2 N2]. split; auto. apply norun_app; auto.
+Qed.
+
+(* cancel of a registered timer stops it for good: whatever happens afterwards, it never runs again
+   and its sequence number never comes back *)
+Lemma cancel_stops : forall c ops st evs a s ops2 st2 evs2,
+  run (init c) ops = Ok (st, evs) -> In (a, s) (active st) ->
+  run st (Cb (CCancel a s) :: ops2) = Ok (st2, evs2) ->
+  (forall dl now t, ~ In (ERun s dl now t) evs2) /\ gone st2 s.
+Proof.
+  intros c ops st evs a s ops2 st2 evs2 H HA H2.
+  destruct (cancel_active _ _ _ _ _ _ H HA) as (st1 & E1 & G1 & _).
+  cbn [run] in H2. rewrite E1 in H2. cbn [bind] in H2.
+  destruct (run st1 ops2) as [[st3 e3]| |] eqn:E3; cbn [bind] in H2; try discriminate.
+  inversion H2; subst. cbn [app]. destruct (run_gone _ _ _ _ s E3 G1) as [G3 N3]. split; auto.
+Qed.
+(* the same for any id that is already dead (ran, cancelled): it never runs again *)
+Lemma dead_stays_dead : forall st s ops2 st2 evs2, gone st s -> run st ops2 = Ok (st2, evs2) ->
+  (forall dl now t, ~ In (ERun s dl now t) evs2) /\ gone st2 s.
+Proof. intros st s ops2 st2 evs2 G H. destruct (run_gone _ _ _ _ s H G); auto. Qed.
